@@ -230,6 +230,10 @@ class SquaredExponential(CovarianceFunction):
         # small values added to the diagonal for stability
         self.epsilon = 1e-12 * eye(self.dx.shape[0])
         self.n_params = x.shape[1] + 1
+        # (bounds held for another number of dimensions - estimated when this object
+        # served other data - cannot apply to these)
+        if self.bounds is not None and len(self.bounds) != self.n_params:
+            self.bounds = None
         self.hyperpar_labels = ["SqrExp log-amplitude"]
         self.hyperpar_labels.extend(
             [f"SqrExp log-scale {i}" for i in range(x.shape[1])]
@@ -331,6 +335,10 @@ class RationalQuadratic(CovarianceFunction):
         # small values added to the diagonal for stability
         self.epsilon = 1e-12 * eye(self.dx.shape[0])
         self.n_params = x.shape[1] + 2
+        # (bounds held for another number of dimensions - estimated when this object
+        # served other data - cannot apply to these)
+        if self.bounds is not None and len(self.bounds) != self.n_params:
+            self.bounds = None
         self.hyperpar_labels = ["RQ log-amplitude", "RQ log-alpha"]
         self.hyperpar_labels.extend([f"RQ log-scale {i}" for i in range(x.shape[1])])
 
